@@ -7,6 +7,7 @@ import numpy as np
 
 from ..common import Ctx, driver_batch, f2b, fmat, fvec, vec
 from . import c11_r3 as r3
+from . import c11_r4 as r4
 
 # (declarations for the runner follow the helpers)
 
@@ -440,9 +441,19 @@ def corr(ctx: Ctx):
         """A new object from new array objects holding the arguments (the caller's own arrays: with
         wrap=False the grid keeps them, and a same-object reassignment edits them — legitimately)."""
         pin, win = _clone(args["points"]), _clone(args["weights"])
+        rv_, wr_ = args["realvecs"], args["wrap"]
+        # (class 15) every call form of the constructor: positional / keyword, the defaults omitted
+        forms = [lambda: PG(pin, win, rv_, wrap=wr_), lambda: PG(pin, win, rv_, wr_), lambda: PG(pin, win, realvecs=rv_, wrap=wr_),
+                 lambda: PG(points=pin, weights=win, realvecs=rv_, wrap=wr_), lambda: PG(wrap=wr_, weights=win, realvecs=rv_, points=pin)]
+        if not wr_:
+            forms += [lambda: PG(pin, win, rv_), lambda: PG(pin, win, realvecs=rv_)]
+        if rv_ is None:
+            forms += [lambda: PG(pin, win, wrap=wr_)] + ([lambda: PG(pin, win)] if not wr_ else [])
+        fi = rng.randrange(len(forms)) if rng.random() < 0.5 else 0
+        ctx.tagc(f"ctor-form:{fi}")
         with warnings.catch_warnings(record=True) as rec:
             warnings.simplefilter("always")
-            g = PG(pin, win, args["realvecs"], wrap=args["wrap"])
+            g = forms[fi]()
         last_warn[0] = warn_obs(rec)
         if not np.array_equal(pin, args["points"]) or not np.array_equal(win, args["weights"]):
             ctx.fail("corr", "construct:caller-array", "the caller's points/weights array was modified by the constructor (wrap)",
@@ -457,157 +468,175 @@ def corr(ctx: Ctx):
         except Exception as e:  # noqa: BLE001
             return ("E", _errtag(e))
 
+    GC = r4.Guard(ctx, kind="corr")     # (a crash of one case must not hide the others; re-raised at the end)
     for ci in range(ncase):
-        if ci % 40 == 39:
-            # rejected constructor calls: the generated constructor must reject them with the same exception class
-            bp, bw, brv, bwrap, boned, bd, bwhat = r3.bad_ctor_args(rng)
+        with GC("corr:case", "one correspondence case"):
+            if ci % 40 == 39:
+                # rejected constructor calls: the generated constructor must reject them with the same exception class
+                bp, bw, brv, bwrap, boned, bd, bwhat = r3.bad_ctor_args(rng)
+                try:
+                    with warnings.catch_warnings():
+                        warnings.simplefilter("ignore")
+                        PG(bp, bw, brv, wrap=bwrap)
+                    tag_ = "accepted"
+                except Exception as e:  # noqa: BLE001
+                    tag_ = _errtag(e)
+                brows = np.asarray(brv, dtype=float).reshape(-1, 1) if boned else np.asarray(brv, dtype=float)
+                bcols = brows.shape[1] if brows.ndim == 2 and len(brows) else bd
+                bad_cases.append((tag_, bwhat, f"PeriodicGrid({_arr_text(bp)}, {_arr_text(bw)}, {_arr_text(brv)}, wrap={bwrap})"))
+                bad_lines.append(f"C11.hist {int(boned)} {bd} {_fm(bp, bd)} {fvec(bw)} {_fm(brows, bcols)} {_fm(np.zeros_like(brows), bcols)} {int(bwrap)} 0")
+                continue
+            args = r3.special_args(rng, periodic_args, lattice) if rng.random() < 0.22 else None
+            if args is None and rng.random() < 0.06:
+                # (fourth round) sparse grids, small spheres next to faces / edges / corners holding only neighbours' images
+                args = r4.args_sparse(rng, lattice)
+            if args is None:
+                args = periodic_args(rng)
+            d, oned = args["d"], args["oned"]
+            orig = np.array(args["points"], copy=True)
             try:
-                with warnings.catch_warnings():
-                    warnings.simplefilter("ignore")
-                    PG(bp, bw, brv, wrap=bwrap)
-                tag_ = "accepted"
+                g = build(args)
             except Exception as e:  # noqa: BLE001
-                tag_ = _errtag(e)
-            brows = np.asarray(brv, dtype=float).reshape(-1, 1) if boned else np.asarray(brv, dtype=float)
-            bcols = brows.shape[1] if brows.ndim == 2 and len(brows) else bd
-            bad_cases.append((tag_, bwhat, f"PeriodicGrid({_arr_text(bp)}, {_arr_text(bw)}, {_arr_text(brv)}, wrap={bwrap})"))
-            bad_lines.append(f"C11.hist {int(boned)} {bd} {_fm(bp, bd)} {fvec(bw)} {_fm(brows, bcols)} {_fm(np.zeros_like(brows), bcols)} {int(bwrap)} 0")
-            continue
-        args = r3.special_args(rng, periodic_args, lattice) if rng.random() < 0.22 else None
-        if args is None:
-            args = periodic_args(rng)
-        d, oned = args["d"], args["oned"]
-        orig = np.array(args["points"], copy=True)
-        try:
-            g = build(args)
-        except Exception as e:  # noqa: BLE001
-            ctx.count(["construct", repr(args)], nontrivial=False, tag="construct:raises")
-            ctx.fail("corr", "construct", f"PeriodicGrid constructor raised {type(e).__name__}: {str(e)[:100]} on valid arguments",
-                     witness={k: v for k, v in args.items()})
-            continue
-        head, a = _header(args, g)
-        margin = 1.0 if args["rtol"] == RTOL else 3e3
-        skew = bool(len(a)) and (bool(np.any(a < 0)) or np.count_nonzero(a) > len(a))
+                ctx.count(["construct", repr(args)], nontrivial=False, tag="construct:raises")
+                ctx.fail("corr", "construct", f"PeriodicGrid constructor raised {type(e).__name__}: {str(e)[:100]} on valid arguments",
+                         witness={k: v for k, v in args.items()})
+                continue
+            head, a = _header(args, g)
+            margin = 1.0 if args["rtol"] == RTOL else 3e3
+            skew = bool(len(a)) and (bool(np.any(a < 0)) or np.count_nonzero(a) > len(a))
 
-        def obs_c(g):
-            return ("C", np.array(g.points, copy=True), np.array(g.recivecs, copy=True), np.array(g.spacings, copy=True),
-                    np.array(g.frac_intvls, copy=True), last_warn[0])
-        obs = [obs_c(g)]
-        if args.get("r3"):
-            ctx.tagc("r3:" + args["r3"])
-        ops = []
-        toks, nontriv = [], False
-        text = [f"g = PeriodicGrid({_arr_text(args['points'])}, {_arr_text(args['weights'])}, {_arr_text(args['realvecs'])}, wrap={args['wrap']})"]
-        for tg in args["dress"]:
-            ctx.tagc("dtype:" + tg)
-        for _ in range(rng.choice([1, 1, 2, 3, 4])):
-            k = rng.choice(["q", "q", "q", "q", "sp", "sw", "gi"])
-            n = len(g.weights)
-            if k == "q":
-                sq = r3.special_query(rng, g, a, d, oned, thorough=ctx.thorough) if (len(a) and margin == 1.0 and rng.random() < 0.1) else None
-                if sq is not None:
-                    c, r, want, how, _m = sq
-                    from .c10 import _centre_obj
-                    cc, ck = _centre_obj(rng, float(c[0]) if oned else c, oned)
-                    robj, rkk = r3.radius_obj(rng, r)
-                    how = how + ":" + ck + ":" + rkk
-                else:
-                    cc, c, robj, r, want, how = _query_args(rng, g, a, d, oned, margin)
-                bad = rng.random() < 0.05
-                if bad:
-                    r = rng.choice([-1.0, math.nan, math.inf, -math.inf])
-                    robj = rng.choice([r, np.float32(r)])
-                toks.append(("q s " + f2b(float(c[0])) if oned else "q v " + fvec(c)) + " " + f2b(r))
-                text.append(f"g.get_localgrid({_descr(cc)}, {_descr(robj)})")
-
-                def op(g, cc=cc, robj=robj, how=how):
-                    parent = np.array(g.points, copy=True)
-                    lg = g.get_localgrid(cc, robj)
-                    if type(lg) is not LG or not np.array_equal(np.asarray(lg.center), np.asarray(cc)):
-                        return ("X", "result is not a LocalGrid around the given centre")
-                    ilc, ok = recover_ilc(parent, lg, a)
-                    if not ok:
-                        return ("X", "local points are not parent points minus integer lattice translations")
-                    order = sorted(range(len(ilc)), key=lambda t: (ilc[t], int(lg.indices[t])))
-                    return ("L", [ilc[t] for t in order], [int(lg.indices[t]) for t in order],
-                            _rows(lg.points, d)[order] if len(order) else np.zeros((0, d)),
-                            np.asarray(lg.weights, dtype=float)[order] if len(order) else np.zeros(0), how)
-            elif k == "sp":
-                old = np.asarray(g.points, dtype=float)
-                how = rng.choice(["cells", "fresh", "permute"])
-                if how == "cells" and len(a):
-                    new = old + (np.array([rng.choice([-5, -1, 2, 6]) for _ in range(len(a))]) @ a).reshape(old.shape[1:] if not oned else ())
-                elif how == "permute":
-                    new = old[::-1].copy()
-                else:
-                    new = old + np.array([rng.uniform(-1.5, 1.5) for _ in range(old.size)]).reshape(old.shape) * args.get("scale_factor", 1.0)
-                bad = rng.random() < 0.08
-                if bad:
-                    new = np.concatenate([new, new[:1]])
-                cur = g.points
-                same_obj = (not bad) and rng.random() < 0.3 and cur.dtype == np.float64 and cur.flags.writeable
-                toks.append(f"sp {int(oned)} " + _fm(new, d))
-                text.append(f"p = g.points; p[...] = {_descr(new)}; g.points = p" if same_obj else f"g.points = {_descr(new)}")
-                ctx.tagc("setpoints:" + ("bad" if bad else how) + (":same-object" if same_obj else ""))
-
-                def op(g, new=new, same_obj=same_obj):
-                    if same_obj:
-                        p = g.points
-                        p[...] = new
-                        g.points = p
+            def obs_c(g):
+                return ("C", np.array(g.points, copy=True), np.array(g.recivecs, copy=True), np.array(g.spacings, copy=True),
+                        np.array(g.frac_intvls, copy=True), last_warn[0])
+            obs = [obs_c(g)]
+            if args.get("r3"):
+                ctx.tagc("r3:" + args["r3"])
+            ops = []
+            toks, nontriv = [], False
+            text = [f"g = PeriodicGrid({_arr_text(args['points'])}, {_arr_text(args['weights'])}, {_arr_text(args['realvecs'])}, wrap={args['wrap']})"]
+            for tg in args["dress"]:
+                ctx.tagc("dtype:" + tg)
+            for _ in range(rng.choice([1, 1, 2, 3, 4])):
+                k = rng.choice(["q", "q", "q", "q", "sp", "sw", "gi"])
+                n = len(g.weights)
+                if k == "q":
+                    sq = r3.special_query(rng, g, a, d, oned, thorough=ctx.thorough) if (len(a) and margin == 1.0 and rng.random() < 0.1) else None
+                    if args.get("queries") and rng.random() < 0.85:
+                        c0_, r0_ = args["queries"][rng.randrange(len(args["queries"]))]
+                        want_, r0_ = r3.brute_np(_rows(g.points, d), a, c0_, r0_)
+                        sq = (c0_, r0_, want_, "face", 1.0)
+                    if sq is not None:
+                        c, r, want, how, _m = sq
+                        from .c10 import _centre_obj
+                        cc, ck = _centre_obj(rng, float(c[0]) if oned else c, oned)
+                        robj, rkk = r3.radius_obj(rng, r)
+                        how = how + ":" + ck + ":" + rkk
                     else:
-                        g.points = _clone(new)
-                    return ("D", np.array(g.frac_intvls, copy=True))
-            elif k == "sw":
-                new = np.array([rng.uniform(0.1, 2) for _ in range(n + (1 if rng.random() < 0.08 else 0))])
-                toks.append("sw " + fvec(new))
-                text.append(f"g.weights = {_descr(new)}")
+                        cc, c, robj, r, want, how = _query_args(rng, g, a, d, oned, margin)
+                    bad = rng.random() < 0.05
+                    if bad:
+                        r = rng.choice([-1.0, math.nan, math.inf, -math.inf])
+                        robj = rng.choice([r, np.float32(r)])
+                    toks.append(("q s " + f2b(float(c[0])) if oned else "q v " + fvec(c)) + " " + f2b(r))
+                    text.append(f"g.get_localgrid({_descr(cc)}, {_descr(robj)})")
 
-                def op(g, new=new):
-                    g.weights = _clone(new)
-                    return ("D", None)
-            else:
-                for _try in range(20):
-                    ik, idx, tok = _index(rng, n)
-                    try:
-                        if _py_select(n, idx):
-                            break
-                    except (IndexError, ValueError):
-                        break
+                    def op(g, cc=cc, robj=robj, how=how):
+                        parent = np.array(g.points, copy=True)
+                        lg = g.get_localgrid(cc, robj)
+                        if type(lg) is not LG or not np.array_equal(np.asarray(lg.center), np.asarray(cc)):
+                            return ("X", "result is not a LocalGrid around the given centre")
+                        ilc, ok = recover_ilc(parent, lg, a)
+                        if not ok:
+                            return ("X", "local points are not parent points minus integer lattice translations")
+                        order = sorted(range(len(ilc)), key=lambda t: (ilc[t], int(lg.indices[t])))
+                        return ("L", [ilc[t] for t in order], [int(lg.indices[t]) for t in order],
+                                _rows(lg.points, d)[order] if len(order) else np.zeros((0, d)),
+                                np.asarray(lg.weights, dtype=float)[order] if len(order) else np.zeros(0), how)
+                elif k == "sp":
+                    old = np.asarray(g.points, dtype=float)
+                    how = rng.choice(["cells", "fresh", "permute"])
+                    if how == "cells" and len(a):
+                        new = old + (np.array([rng.choice([-5, -1, 2, 6]) for _ in range(len(a))]) @ a).reshape(old.shape[1:] if not oned else ())
+                    elif how == "permute":
+                        new = old[::-1].copy()
+                    else:
+                        new = old + np.array([rng.uniform(-1.5, 1.5) for _ in range(old.size)]).reshape(old.shape) * args.get("scale_factor", 1.0)
+                    bad = rng.random() < 0.08
+                    if bad:
+                        new = np.concatenate([new, new[:1]])
+                    cur = g.points
+                    same_obj = (not bad) and rng.random() < 0.3 and cur.dtype == np.float64 and cur.flags.writeable
+                    skind = None
+                    if not same_obj and not bad and rng.random() < 0.3:
+                        # (class 14) the new points in another dtype / layout: the grid then HOLDS an array of that kind
+                        new, skind, _t = r4.dress4(rng, new, kinds=["f32", "int", "strided", "negstride", "readonly", "fortran"])
+                        ctx.tagc("setpoints:kind:" + skind)
+                    toks.append(f"sp {int(oned)} " + _fm(new, d))
+                    text.append(f"p = g.points; p[...] = {_descr(new)}; g.points = p" if same_obj else f"g.points = {_descr(new)}")
+                    ctx.tagc("setpoints:" + ("bad" if bad else how) + (":same-object" if same_obj else ""))
+
+                    def op(g, new=new, same_obj=same_obj, skind=skind):
+                        if same_obj:
+                            p = g.points
+                            p[...] = new
+                            g.points = p
+                        elif skind:
+                            g.points = r4.make_kind(np.asarray(new, dtype=float), skind, np.asarray(new).dtype.type if skind == "int" else np.int64)[0]
+                        else:
+                            g.points = _clone(new)
+                        return ("D", np.array(g.frac_intvls, copy=True))
+                elif k == "sw":
+                    new = np.array([rng.uniform(0.1, 2) for _ in range(n + (1 if rng.random() < 0.08 else 0))])
+                    if rng.random() < 0.3:
+                        new = r4.dress4(rng, new, kinds=["f32", "int", "bool", "strided", "negstride", "readonly"])[0]
+                    toks.append("sw " + fvec(new))
+                    text.append(f"g.weights = {_descr(new)}")
+
+                    def op(g, new=new):
+                        g.weights = _clone(new)
+                        return ("D", None)
                 else:
-                    ik, idx, tok = "int", 0, "gi i 0"
-                toks.append(tok)
-                text.append(f"g[{_descr(idx)}]")
-                ctx.tagc("getitem:" + ik)
+                    for _try in range(20):
+                        ik, idx, tok = _index(rng, n)
+                        try:
+                            if _py_select(n, idx):
+                                break
+                        except (IndexError, ValueError):
+                            break
+                    else:
+                        ik, idx, tok = "int", 0, "gi i 0"
+                    toks.append(tok)
+                    text.append(f"g[{_descr(idx)}]")
+                    ctx.tagc("getitem:" + ik)
 
-                def op(g, idx=idx):
-                    with warnings.catch_warnings(record=True) as rec:
-                        warnings.simplefilter("always")
-                        sub = g[idx]
-                    if type(sub) is not PG or not np.array_equal(np.asarray(sub.realvecs), np.asarray(g.realvecs)):
-                        return ("X", "selection is not a PeriodicGrid with the same lattice")
-                    return ("G", np.array(sub.points), np.array(sub.weights), np.array(sub.frac_intvls), warn_obs(rec)[:2])
-            ops.append(op)
-            o = observe(op, g)
-            obs.append(o)
-            if o[0] == "L" and len(a) and (len(set(o[1])) >= 2 or skew):
-                nontriv = True
-        # every fifth object is built a second time from the same arguments; the same history on the
-        # second build must give the same observations (state carried between builds / calls)
-        if ci % 5 == 0:
-            try:
-                g2 = build(args)
-                obs2 = [obs_c(g2)] + [observe(op, g2) for op in ops]
-                ctx.tagc("second-build", len(obs2))
-                for j, (o1, o2) in enumerate(zip(obs, obs2)):
-                    if not _obs_equal(o1, o2):
-                        ctx.fail("corr", "hist:rebuild", f"PeriodicGrid (dim {d}, {len(a)} lattice vector(s)): step {j} of the same history on a second "
-                                 f"build from the same arguments differs: `{text[j][:120]}`", witness={"history": text[: j + 1], "realvecs": a})
-                        break
-            except Exception as e:  # noqa: BLE001
-                ctx.fail("corr", "hist:rebuild", f"second build from the same arguments raised {type(e).__name__}: {e}", witness={"history": text})
-        cases.append((args, a, obs, text, nontriv))
-        lines.append(f"{head} {len(toks)} " + " ".join(toks))
+                    def op(g, idx=idx):
+                        with warnings.catch_warnings(record=True) as rec:
+                            warnings.simplefilter("always")
+                            sub = g[idx]
+                        if type(sub) is not PG or not np.array_equal(np.asarray(sub.realvecs), np.asarray(g.realvecs)):
+                            return ("X", "selection is not a PeriodicGrid with the same lattice")
+                        return ("G", np.array(sub.points), np.array(sub.weights), np.array(sub.frac_intvls), warn_obs(rec)[:2])
+                ops.append(op)
+                o = observe(op, g)
+                obs.append(o)
+                if o[0] == "L" and len(a) and (len(set(o[1])) >= 2 or skew):
+                    nontriv = True
+            # every fifth object is built a second time from the same arguments; the same history on the
+            # second build must give the same observations (state carried between builds / calls)
+            if ci % 5 == 0:
+                try:
+                    g2 = build(args)
+                    obs2 = [obs_c(g2)] + [observe(op, g2) for op in ops]
+                    ctx.tagc("second-build", len(obs2))
+                    for j, (o1, o2) in enumerate(zip(obs, obs2)):
+                        if not _obs_equal(o1, o2):
+                            ctx.fail("corr", "hist:rebuild", f"PeriodicGrid (dim {d}, {len(a)} lattice vector(s)): step {j} of the same history on a second "
+                                     f"build from the same arguments differs: `{text[j][:120]}`", witness={"history": text[: j + 1], "realvecs": a})
+                            break
+                except Exception as e:  # noqa: BLE001
+                    ctx.fail("corr", "hist:rebuild", f"second build from the same arguments raised {type(e).__name__}: {e}", witness={"history": text})
+            cases.append((args, a, obs, text, nontriv))
+            lines.append(f"{head} {len(toks)} " + " ".join(toks))
     answers = driver_batch(lines)
     for (args, a, obs, text, nontriv), line, ans in zip(cases, lines, answers):
         d = args["d"]
@@ -694,6 +723,7 @@ def corr(ctx: Ctx):
         if ans.split()[:1] != [tag_]:
             ctx.fail("corr", "construct:rejected", f"rejected constructor call ({bwhat}): implementation {tag_}, generated constructor {ans[:40]}",
                      witness={"history": ["g = " + btext]})
+    GC.finish()
 
 
 def _warn_cmp(ctx, impl, model, iv, exact, where):
@@ -818,7 +848,21 @@ def oracle_at(ctx: Ctx, failure):
                     warnings.simplefilter("ignore")
                     exec(line, ns)
             except Exception:  # noqa: BLE001 - a rejected operation
-                pass
+                continue
+            # an accepted reassignment must store the values given (whatever kind of array the grid held before)
+            if isinstance(st, ast.Assign) and len(st.targets) == 1 and ast.unparse(st.targets[0]) in ("g.points", "g.weights"):
+                attr = ast.unparse(st.targets[0])[2:]
+                try:
+                    given = np.asarray(eval(ast.unparse(st.value), ns), dtype=float)
+                    if not np.array_equal(np.asarray(getattr(g, attr), dtype=float), given):
+                        ctx.fail("oracle", f"periodicgrid.{attr}:setter-values",
+                                 f"after `{line[:120]}` ({j - 1} earlier op(s)) the grid holds {np.asarray(getattr(g, attr)).tolist()}, not the values given",
+                                 witness={"history": hist[: j + 1]},
+                                 snippet=("import warnings; warnings.filterwarnings('ignore')\nimport numpy as np\nfrom grid.periodicgrid import PeriodicGrid\n"
+                                          + "\n".join(("try:\n    " + h + "\nexcept Exception:\n    pass") if i else h for i, h in enumerate(hist[:j])) + f"\n{line}\n"
+                                          f"assert np.array_equal(np.asarray(g.{attr}, dtype=float), np.asarray({ast.unparse(st.value)}, dtype=float)), 'the grid does not hold the values given'\n"))
+                except Exception:  # noqa: BLE001
+                    pass
 
 
 TIE_SNIP = """import warnings; warnings.filterwarnings('ignore')
@@ -873,9 +917,18 @@ def _oracle_exact_ties(ctx: Ctx, PG, n):
         c = P[i0].copy()
         c[:K] += np.array(t0) * np.array(lens)
         c[ax] += rng.choice([-1, 1]) * r          # the image (i0, t0) is now at distance exactly r, along a lattice axis
+        c_given = c.copy()          # (the reference below is computed from a pristine copy of the centre: class 16)
         with warnings.catch_warnings():
             warnings.simplefilter("ignore")
             lg = g.get_localgrid(float(c[0]) if flat else c, r)
+        if not np.array_equal(c, c_given):
+            ctx.fail("oracle", "periodicgrid.get_localgrid:caller-array", f"get_localgrid changed the caller's centre array from {c_given.tolist()} to {c.tolist()}",
+                     witness={"points": pts.tolist(), "lengths": lens, "center": c_given.tolist(), "radius": r},
+                     snippet=("import warnings; warnings.filterwarnings('ignore')\nimport numpy as np\nfrom grid.periodicgrid import PeriodicGrid\n"
+                              f"a = np.zeros(({K}, {d})); a[np.arange({K}), np.arange({K})] = {lens!r}\n"
+                              f"g = PeriodicGrid(np.array({pts.tolist()!r}), np.ones({npts}), a, wrap={wrap})\nc = np.array({c_given.tolist()!r}); c0 = c.copy()\n"
+                              f"g.get_localgrid(c, {r!r})\nassert np.array_equal(c, c0), 'the centre array of the caller was changed'\n"))
+            c = c_given
         lp = np.asarray(lg.points, dtype=float).reshape(len(lg.indices), d)      # (0, d) for an empty local grid
         got = sorted((int(i), tuple(int(round(float(x))) for x in ((q - P[i])[:K] / np.array(lens)))) for i, q in zip(lg.indices, lp))
         # exact integer arithmetic in units of 1/8 (every number here is a multiple of 1/8)
@@ -907,154 +960,172 @@ def oracle(ctx: Ctx, budget: str):
         _oracle_exact_ties(ctx, PG, (60 if budget == "small" else 1500) * (4 if ctx.thorough else 1))
     except Exception as e:  # noqa: BLE001   (a crash of one part must not hide the failing inputs of the others)
         ctx.fail("oracle", "periodicgrid.get_localgrid:raises", f"exact-tie cases: {type(e).__name__}: {str(e)[:200]}")
+    # Independent parts (fourth round): an exception in one part / case is recorded and never hides what the others find;
+    # a harness exception is re-raised at the very end (G.finish()).
+    from . import c11_r4 as r4
+    G = r4.Guard(ctx)
+    # fourth round first (cheap, deterministic count): sparse grids with small spheres next to faces / edges / corners for
+    # every shape triple, arrays of other dtypes / layouts held by the grid, call forms, shared argument objects, weight
+    # kinds, raising calls leave no trace, ill-conditioned cells
+    with G("periodicgrid:fourth-round", "fourth-round classes"):
+        r4.oracle_r4(ctx, budget, M, periodic_args, lattice, G)
+    # fifth round: one array object overwritten in place between two constructions / calls (every array argument), two
+    # instances differing in one dependency in either order, point counts around block sizes, point order, extended /
+    # reduced precision arguments
+    from . import c11_r5 as r5
+    with G("periodicgrid:fifth-round", "fifth-round classes"):
+        r5.oracle_r5(ctx, budget, M, periodic_args, lattice, G)
     # third round: exact lattices with points on cell faces / far centres / zero and denormal radii / radius = lattice
     # length, the 1.1 warning threshold, scaled cells, integer and bool points, centres 1e9 cells away, radius / spacing
     # ratios up to the cap, the singularity threshold, local grids modified by the caller
-    r3.oracle_r3(ctx, budget, M, periodic_args, lattice)
+    with G("periodicgrid:third-round", "third-round classes"):
+        r3.oracle_r3(ctx, budget, M, periodic_args, lattice, G)
     n = (800 if budget == "small" else 8000) * (4 if ctx.thorough else 1)
     for ci in range(n):
-        args = periodic_args(rng)
-        d, oned = args["d"], args["oned"]
-        orig = np.array(args["points"], copy=True)
-        single = args["rtol"] != RTOL          # lattice vectors given in single precision
-        tol, margin = (1e-5, 3e3) if single else (1e-9, 1.0)
-        rvtxt = "None" if args["realvecs"] is None else (_arr_text(args["realvecs"]) + f".reshape({np.asarray(args['realvecs']).shape})")
-        base = dict(pts=_arr_text(args["points"]), w=_arr_text(args["weights"]), rv=rvtxt, wrap=args["wrap"])
-        try:
-            with warnings.catch_warnings():
-                warnings.simplefilter("ignore")
-                g = PG(args["points"], args["weights"], args["realvecs"], wrap=args["wrap"])
-        except Exception as e:  # noqa: BLE001
-            ctx.fail("oracle", "periodicgrid.__init__:raises" + (":1d-no-lattice" if oned and args["k"] == 0 else ""),
-                     f"PeriodicGrid(points {args['points'].shape}, realvecs={rvtxt}, wrap={args['wrap']}) raised {type(e).__name__}: {str(e)[:100]}",
-                     witness=base, snippet=SNIP.format(pre="", c=0.0 if oned else [0.0] * d, r=0.5, box=1, **base))
-            continue
-        a = _lat(g, d)
-        k = len(a)
-        P = _rows(g.points, d)
-        scale = float(np.linalg.norm(a, axis=1).min()) if k else 1.0
-        # (a) duality contract of the reciprocal vectors, (b) spacings
-        if k:
-            b = np.asarray(g.recivecs, dtype=float).reshape(k, d)
-            if not np.allclose(b @ a.T, np.eye(k), atol=tol) or not np.allclose(b, (b @ np.linalg.pinv(a)) @ a, atol=tol):
-                ctx.fail("oracle", "periodicgrid.__init__:recivecs", f"reciprocal vectors are not dual to the lattice vectors (b.a^T = {(b @ a.T).tolist()})", witness=base)
-            sp = np.asarray(g.spacings, dtype=float).reshape(-1)
-            if not np.allclose(sp, 1 / np.linalg.norm(b, axis=1), rtol=tol / 10) or np.any(sp <= 0):
-                ctx.fail("oracle", "periodicgrid.__init__:spacings", f"plane spacings {sp.tolist()} are not 1/|b_k| = {(1 / np.linalg.norm(b, axis=1)).tolist()}",
-                         witness=base, snippet=SNIP.format(pre="assert (np.asarray(g.spacings) > 0).all(), f'spacings {g.spacings}'", c=0.0 if oned else [0.0] * d, r=0.5, box=2, **base))
-            fr = P @ b.T
-            iv = np.asarray(g.frac_intvls, dtype=float).reshape(k, 2)
-            if np.any(fr.min(axis=0) < iv[:, 0] - tol) or np.any(fr.max(axis=0) > iv[:, 1] + tol):
-                ctx.fail("oracle", "periodicgrid.__init__:frac-intvls", "frac_intvls do not contain the fractional coordinates of the stored points", witness=base)
-            # (c) wrapping
-            if args["wrap"]:
-                coef = (P - _rows(orig, d)) @ b.T
-                if (np.any(fr < -tol) or np.any(fr >= 1 + tol) or not np.allclose(coef, np.rint(coef), atol=100 * tol)
-                        or not np.allclose(P, _rows(orig, d) + np.rint(coef) @ a, atol=tol * (1 + np.abs(P).max()))):
-                    ctx.fail("oracle", "periodicgrid.__init__:wrap", "wrapped points are not in [0,1) fractional coordinates / not lattice translates of the given points", witness=base)
-        if not np.array_equal(orig, args["points"]):
-            ctx.fail("oracle", "periodicgrid.__init__:caller-array", "the constructor modified the caller's points array", witness=base)
-        if not args["wrap"] and not np.array_equal(_rows(g.points, d), _rows(orig, d)):
-            ctx.fail("oracle", "periodicgrid.__init__:points", "points changed although wrap=False", witness=base)
-        # (e) queries, some of them after a reassignment of the points (history clause of C10
-        # for this class: the image box must be the one of the current points)
-        pre = ""
-        reassigned = False      # (`pre` is the whole earlier history of this object as text: the snippet replays it)
-        for qi in range(rng.choice([1, 2, 3])):
-            if qi == 1 and rng.random() < 0.6:
-                old = np.asarray(g.points)
-                if k and rng.random() < 0.6:
-                    new = old + (np.array([rng.choice([-5, -1, 2, 6]) for _ in range(k)]) @ a).reshape(old.shape[1:] if not oned else ())
-                else:
-                    new = old + np.array([rng.uniform(-1.5, 1.5) for _ in range(old.size)]).reshape(old.shape)
-                cur = g.points
-                if rng.random() < 0.4 and cur.dtype == np.float64 and cur.flags.writeable:
-                    cur[...] = new          # in-place update of the grid's own array, then the same object
-                    g.points = cur          # is assigned again: still a reassignment
-                    pre += f"p = g.points; p[...] = np.array({new.tolist()!r}); g.points = p\n"
-                else:
-                    g.points = new
-                    pre += f"g.points = np.array({new.tolist()!r})\n"
-                P = _rows(g.points, d)
-                reassigned = True
-            elif qi == 1 and rng.random() < 0.5:
-                # (setter then query, class 10) new weights after the first query: the next local grid carries them
-                neww = np.array([rng.uniform(-2, 2) for _ in range(len(g.weights))])
-                g.weights = neww
-                pre += f"g.weights = np.array({neww.tolist()!r})\n"
-                ctx.tagc("oracle:weights-setter-then-query")
-            cc, c, robj, r, want, how = _query_args(rng, g, a, d, oned, margin)
-            from .c10 import _descr
-            thisq = f"g.get_localgrid({_descr(cc)}, {_descr(robj)})\n"
-            box = int(max([abs(t) for _, j in want for t in j] + [0])) + 2
-            snippet = SNIP.format(pre=pre, c=(float(c[0]) if oned else c.tolist()), r=r, box=box, **base)
-            wit = dict(base, center=c, radius=r, expected=want[:40], reassigned=pre)
-            pre += thisq
+        with G("periodicgrid.get_localgrid:random", "random lattices"):
+            args = periodic_args(rng)
+            d, oned = args["d"], args["oned"]
+            orig = np.array(args["points"], copy=True)
+            single = args["rtol"] != RTOL          # lattice vectors given in single precision
+            tol, margin = (1e-5, 3e3) if single else (1e-9, 1.0)
+            rvtxt = "None" if args["realvecs"] is None else (_arr_text(args["realvecs"]) + f".reshape({np.asarray(args['realvecs']).shape})")
+            base = dict(pts=_arr_text(args["points"]), w=_arr_text(args["weights"]), rv=rvtxt, wrap=args["wrap"])
             try:
                 with warnings.catch_warnings():
                     warnings.simplefilter("ignore")
-                    lg = g.get_localgrid(cc, robj)
+                    g = PG(args["points"], args["weights"], args["realvecs"], wrap=args["wrap"])
             except Exception as e:  # noqa: BLE001
-                sub = "empty" if not want else "raises"
-                ctx.fail("oracle", f"periodicgrid.get_localgrid:{sub}",
-                         f"get_localgrid(center={c.tolist()}, radius={r}) raised {type(e).__name__}: {str(e)[:80]} (dim {d}, {k} lattice vector(s), wrap={args['wrap']}); "
-                         f"{len(want)} image(s) lie inside the sphere", witness=dict(wit, raised=repr(e)), snippet=snippet)
+                ctx.fail("oracle", "periodicgrid.__init__:raises" + (":1d-no-lattice" if oned and args["k"] == 0 else ""),
+                         f"PeriodicGrid(points {args['points'].shape}, realvecs={rvtxt}, wrap={args['wrap']}) raised {type(e).__name__}: {str(e)[:100]}",
+                         witness=base, snippet=SNIP.format(pre="", c=0.0 if oned else [0.0] * d, r=0.5, box=1, **base))
                 continue
-            ilc, ok = recover_ilc(P, lg, a)
-            got = sorted((int(i), tuple(-t for t in j)) for i, j in zip(lg.indices, ilc))
-            vals_ok = ok and np.array_equal(np.asarray(lg.weights), np.asarray(g.weights)[np.asarray(lg.indices, dtype=int)]) \
-                and isinstance(lg, M["basegrid"].LocalGrid)
-            if got != want or not vals_ok:
-                dup = len(set(got)) != len(got)
-                sub = "duplicate" if dup else ("images" if got != want else "values")
-                if reassigned and got != want:
-                    # the cause is the reassignment iff a fresh object with the same points answers correctly
-                    try:
-                        with warnings.catch_warnings():
-                            warnings.simplefilter("ignore")
-                            fresh = PG(np.array(g.points), np.array(g.weights), args["realvecs"]).get_localgrid(cc, robj)
-                        filc, fok = recover_ilc(P, fresh, a)
-                        if fok and sorted((int(i), tuple(-t for t in j)) for i, j in zip(fresh.indices, filc)) == want:
-                            sub = "after-points-setter"
-                    except Exception:  # noqa: BLE001
-                        pass
-                ctx.fail("oracle", f"periodicgrid.get_localgrid:{sub}",
-                         f"get_localgrid(center={c.tolist()}, radius={r}) (dim {d}, {k} lattice vector(s), wrap={args['wrap']}): "
-                         f"(index, translation) pairs {got[:10]} ({len(got)}), brute-force enumeration {want[:10]} ({len(want)})",
-                         witness=dict(wit, got=got[:60]), snippet=snippet)
-            # (f) without lattice vectors: the plain grid
-            if k == 0:
-                ref = Grid(np.array(g.points), np.array(g.weights)).get_localgrid(cc, robj)
-                if sorted(map(int, ref.indices)) != sorted(map(int, lg.indices)):
-                    ctx.fail("oracle", "periodicgrid.get_localgrid:no-lattice", "PeriodicGrid without lattice vectors differs from the plain Grid", witness=wit, snippet=snippet)
+            a = _lat(g, d)
+            k = len(a)
+            P = _rows(g.points, d)
+            scale = float(np.linalg.norm(a, axis=1).min()) if k else 1.0
+            # (a) duality contract of the reciprocal vectors, (b) spacings
+            if k:
+                b = np.asarray(g.recivecs, dtype=float).reshape(k, d)
+                if not np.allclose(b @ a.T, np.eye(k), atol=tol) or not np.allclose(b, (b @ np.linalg.pinv(a)) @ a, atol=tol):
+                    ctx.fail("oracle", "periodicgrid.__init__:recivecs", f"reciprocal vectors are not dual to the lattice vectors (b.a^T = {(b @ a.T).tolist()})", witness=base)
+                sp = np.asarray(g.spacings, dtype=float).reshape(-1)
+                if not np.allclose(sp, 1 / np.linalg.norm(b, axis=1), rtol=tol / 10) or np.any(sp <= 0):
+                    ctx.fail("oracle", "periodicgrid.__init__:spacings", f"plane spacings {sp.tolist()} are not 1/|b_k| = {(1 / np.linalg.norm(b, axis=1)).tolist()}",
+                             witness=base, snippet=SNIP.format(pre="assert (np.asarray(g.spacings) > 0).all(), f'spacings {g.spacings}'", c=0.0 if oned else [0.0] * d, r=0.5, box=2, **base))
+                fr = P @ b.T
+                iv = np.asarray(g.frac_intvls, dtype=float).reshape(k, 2)
+                if np.any(fr.min(axis=0) < iv[:, 0] - tol) or np.any(fr.max(axis=0) > iv[:, 1] + tol):
+                    ctx.fail("oracle", "periodicgrid.__init__:frac-intvls", "frac_intvls do not contain the fractional coordinates of the stored points", witness=base)
+                # (c) wrapping
+                if args["wrap"]:
+                    coef = (P - _rows(orig, d)) @ b.T
+                    if (np.any(fr < -tol) or np.any(fr >= 1 + tol) or not np.allclose(coef, np.rint(coef), atol=100 * tol)
+                            or not np.allclose(P, _rows(orig, d) + np.rint(coef) @ a, atol=tol * (1 + np.abs(P).max()))):
+                        ctx.fail("oracle", "periodicgrid.__init__:wrap", "wrapped points are not in [0,1) fractional coordinates / not lattice translates of the given points", witness=base)
+            if not np.array_equal(orig, args["points"]):
+                ctx.fail("oracle", "periodicgrid.__init__:caller-array", "the constructor modified the caller's points array", witness=base)
+            if not args["wrap"] and not np.array_equal(_rows(g.points, d), _rows(orig, d)):
+                ctx.fail("oracle", "periodicgrid.__init__:points", "points changed although wrap=False", witness=base)
+            # (e) queries, some of them after a reassignment of the points (history clause of C10
+            # for this class: the image box must be the one of the current points)
+            pre = ""
+            reassigned = False      # (`pre` is the whole earlier history of this object as text: the snippet replays it)
+            for qi in range(rng.choice([1, 2, 3])):
+                if qi == 1 and rng.random() < 0.6:
+                    old = np.asarray(g.points)
+                    if k and rng.random() < 0.6:
+                        new = old + (np.array([rng.choice([-5, -1, 2, 6]) for _ in range(k)]) @ a).reshape(old.shape[1:] if not oned else ())
+                    else:
+                        new = old + np.array([rng.uniform(-1.5, 1.5) for _ in range(old.size)]).reshape(old.shape)
+                    cur = g.points
+                    if rng.random() < 0.4 and cur.dtype == np.float64 and cur.flags.writeable:
+                        cur[...] = new          # in-place update of the grid's own array, then the same object
+                        g.points = cur          # is assigned again: still a reassignment
+                        pre += f"p = g.points; p[...] = np.array({new.tolist()!r}); g.points = p\n"
+                    else:
+                        g.points = new
+                        pre += f"g.points = np.array({new.tolist()!r})\n"
+                    P = _rows(g.points, d)
+                    reassigned = True
+                elif qi == 1 and rng.random() < 0.5:
+                    # (setter then query, class 10) new weights after the first query: the next local grid carries them
+                    neww = np.array([rng.uniform(-2, 2) for _ in range(len(g.weights))])
+                    g.weights = neww
+                    pre += f"g.weights = np.array({neww.tolist()!r})\n"
+                    ctx.tagc("oracle:weights-setter-then-query")
+                cc, c, robj, r, want, how = _query_args(rng, g, a, d, oned, margin)
+                from .c10 import _descr
+                thisq = f"g.get_localgrid({_descr(cc)}, {_descr(robj)})\n"
+                box = int(max([abs(t) for _, j in want for t in j] + [0])) + 2
+                snippet = SNIP.format(pre=pre, c=(float(c[0]) if oned else c.tolist()), r=r, box=box, **base)
+                wit = dict(base, center=c, radius=r, expected=want[:40], reassigned=pre)
+                pre += thisq
+                try:
+                    with warnings.catch_warnings():
+                        warnings.simplefilter("ignore")
+                        lg = g.get_localgrid(cc, robj)
+                except Exception as e:  # noqa: BLE001
+                    sub = "empty" if not want else "raises"
+                    ctx.fail("oracle", f"periodicgrid.get_localgrid:{sub}",
+                             f"get_localgrid(center={c.tolist()}, radius={r}) raised {type(e).__name__}: {str(e)[:80]} (dim {d}, {k} lattice vector(s), wrap={args['wrap']}); "
+                             f"{len(want)} image(s) lie inside the sphere", witness=dict(wit, raised=repr(e)), snippet=snippet)
+                    continue
+                ilc, ok = recover_ilc(P, lg, a)
+                got = sorted((int(i), tuple(-t for t in j)) for i, j in zip(lg.indices, ilc))
+                vals_ok = ok and np.array_equal(np.asarray(lg.weights), np.asarray(g.weights)[np.asarray(lg.indices, dtype=int)]) \
+                    and isinstance(lg, M["basegrid"].LocalGrid)
+                if got != want or not vals_ok:
+                    dup = len(set(got)) != len(got)
+                    sub = "duplicate" if dup else ("images" if got != want else "values")
+                    if reassigned and got != want:
+                        # the cause is the reassignment iff a fresh object with the same points answers correctly
+                        try:
+                            with warnings.catch_warnings():
+                                warnings.simplefilter("ignore")
+                                fresh = PG(np.array(g.points), np.array(g.weights), args["realvecs"]).get_localgrid(cc, robj)
+                            filc, fok = recover_ilc(P, fresh, a)
+                            if fok and sorted((int(i), tuple(-t for t in j)) for i, j in zip(fresh.indices, filc)) == want:
+                                sub = "after-points-setter"
+                        except Exception:  # noqa: BLE001
+                            pass
+                    ctx.fail("oracle", f"periodicgrid.get_localgrid:{sub}",
+                             f"get_localgrid(center={c.tolist()}, radius={r}) (dim {d}, {k} lattice vector(s), wrap={args['wrap']}): "
+                             f"(index, translation) pairs {got[:10]} ({len(got)}), brute-force enumeration {want[:10]} ({len(want)})",
+                             witness=dict(wit, got=got[:60]), snippet=snippet)
+                # (f) without lattice vectors: the plain grid
+                if k == 0:
+                    ref = Grid(np.array(g.points), np.array(g.weights)).get_localgrid(cc, robj)
+                    if sorted(map(int, ref.indices)) != sorted(map(int, lg.indices)):
+                        ctx.fail("oracle", "periodicgrid.get_localgrid:no-lattice", "PeriodicGrid without lattice vectors differs from the plain Grid", witness=wit, snippet=snippet)
     # (g) dtype of the lattice vectors: integers (the float64 computation is the reference)
     for rv, pts, c in ((np.array([[2, 0], [0, 1]]), np.array([[0.25, 0.5], [1.5, 0.25]]), np.array([0.25, 0.5])),
                        (np.array([[3, 0, 0], [0, 3, 0], [1, 0, 2]]), np.array([[0.5, 0.25, 0.75]]), np.zeros(3)),
                        (np.array([2]), np.array([0.25, 1.5]), 0.25)):
-        w = np.ones(len(pts))
-        snippet = ("import warnings; warnings.filterwarnings('ignore')\nimport numpy as np\nfrom grid.periodicgrid import PeriodicGrid\n"
-                   f"rv = np.array({rv.tolist()!r})   # integer dtype\npts = np.array({pts.tolist()!r}); w = np.ones({len(pts)})\n"
-                   f"c = {np.asarray(c).tolist()!r}\n"
-                   "a = PeriodicGrid(pts, w, rv).get_localgrid(np.array(c) if np.ndim(c) else c, 1.25)        # (an exception here is the failure)\n"
-                   "b = PeriodicGrid(pts, w, rv.astype(float)).get_localgrid(np.array(c) if np.ndim(c) else c, 1.25)\n"
-                   "assert sorted(map(int, a.indices)) == sorted(map(int, b.indices))\n")
-        try:
-            with warnings.catch_warnings():
-                warnings.simplefilter("ignore")
-                la = PG(pts, w, rv).get_localgrid(c, 1.25)
-                lb = PG(pts, w, rv.astype(float)).get_localgrid(c, 1.25)
-            if sorted(map(int, la.indices)) != sorted(map(int, lb.indices)) or not np.allclose(np.sort(np.asarray(la.points, dtype=float), axis=0),
-                                                                                               np.sort(np.asarray(lb.points, dtype=float), axis=0)):
-                ctx.fail("oracle", "periodicgrid.__init__:int-realvecs", f"integer lattice vectors {rv.tolist()} give another local grid than the same vectors as floats",
-                         witness={"realvecs": rv, "points": pts}, snippet=snippet)
-        except ValueError as e:
-            # scope decision (DESIGN 8.3): lattice vectors of an integer dtype are rejected (np.finfo of an
-            # integer dtype in the SVD branch) -- a rejection of the argument type, not a wrong local grid
-            ctx.info(f"out of scope: PeriodicGrid with integer-dtype lattice vectors {rv.tolist()} raised ValueError: {str(e)[:70]}")
-        except Exception as e:  # noqa: BLE001
-            ctx.fail("oracle", "periodicgrid.__init__:int-realvecs",
-                     f"PeriodicGrid(points, weights, realvecs=np.array({rv.tolist()}) [dtype {rv.dtype}]) raised {type(e).__name__}: {str(e)[:90]} "
-                     "(the same lattice vectors as a float array are accepted)", witness={"realvecs": rv, "points": pts, "raised": repr(e)}, snippet=snippet)
+        with G("periodicgrid.__init__:int-realvecs", "integer lattice vectors"):
+            w = np.ones(len(pts))
+            snippet = ("import warnings; warnings.filterwarnings('ignore')\nimport numpy as np\nfrom grid.periodicgrid import PeriodicGrid\n"
+                       f"rv = np.array({rv.tolist()!r})   # integer dtype\npts = np.array({pts.tolist()!r}); w = np.ones({len(pts)})\n"
+                       f"c = {np.asarray(c).tolist()!r}\n"
+                       "a = PeriodicGrid(pts, w, rv).get_localgrid(np.array(c) if np.ndim(c) else c, 1.25)        # (an exception here is the failure)\n"
+                       "b = PeriodicGrid(pts, w, rv.astype(float)).get_localgrid(np.array(c) if np.ndim(c) else c, 1.25)\n"
+                       "assert sorted(map(int, a.indices)) == sorted(map(int, b.indices))\n")
+            try:
+                with warnings.catch_warnings():
+                    warnings.simplefilter("ignore")
+                    la = PG(pts, w, rv).get_localgrid(c, 1.25)
+                    lb = PG(pts, w, rv.astype(float)).get_localgrid(c, 1.25)
+                if sorted(map(int, la.indices)) != sorted(map(int, lb.indices)) or not np.allclose(np.sort(np.asarray(la.points, dtype=float), axis=0),
+                                                                                                   np.sort(np.asarray(lb.points, dtype=float), axis=0)):
+                    ctx.fail("oracle", "periodicgrid.__init__:int-realvecs", f"integer lattice vectors {rv.tolist()} give another local grid than the same vectors as floats",
+                             witness={"realvecs": rv, "points": pts}, snippet=snippet)
+            except ValueError as e:
+                # scope decision (DESIGN 8.3): lattice vectors of an integer dtype are rejected (np.finfo of an
+                # integer dtype in the SVD branch) -- a rejection of the argument type, not a wrong local grid
+                ctx.info(f"out of scope: PeriodicGrid with integer-dtype lattice vectors {rv.tolist()} raised ValueError: {str(e)[:70]}")
+            except Exception as e:  # noqa: BLE001
+                ctx.fail("oracle", "periodicgrid.__init__:int-realvecs",
+                         f"PeriodicGrid(points, weights, realvecs=np.array({rv.tolist()}) [dtype {rv.dtype}]) raised {type(e).__name__}: {str(e)[:90]} "
+                         "(the same lattice vectors as a float array are accepted)", witness={"realvecs": rv, "points": pts, "raised": repr(e)}, snippet=snippet)
     try:
         PG([[0.1, 0.2]], [1.0], [[1.0, 0.0]])
         ctx.info("PeriodicGrid accepts Python lists for points / weights / realvecs")
@@ -1066,3 +1137,4 @@ def oracle(ctx: Ctx, budget: str):
         ctx.info("PeriodicGrid without lattice vectors accepts radius=inf")
     except ValueError:
         ctx.info("out of scope: PeriodicGrid rejects radius=inf (ValueError) for every number of lattice vectors, also K=0 where Grid returns the whole grid")
+    G.finish()
